@@ -143,17 +143,19 @@ def _gates(tier):
                faults=[(f"bit{k}", (lambda k=k: q_incompat([k]))) for k in range(5, 64)]
                + [("bit5+bit0", lambda: q_incompat([0, 5])), ("all-unknown", lambda: q_incompat(list(range(5, 64))))])
     # compression methods other than 0 (deflate) and 1 (zstd): the field only exists behind byte 104 and counts when bit 3 is set
-    def q_comp(ctype):
+    def q_comp(ctype, bit=None):
         b = bytearray(BQ.build(["N", "N", "C"], [0, 1, None], 12, 3)[0].tobytes())
         hl, = struct.unpack_from(">I", b, 100)
         assert hl >= 112, hl
-        struct.pack_into(">Q", b, 72, 8 if ctype else 0)
+        struct.pack_into(">Q", b, 72, (8 if ctype else 0) if bit is None else bit)
         b[104] = ctype
         q_ = __import__("dissect.hypervisor.disk.qcow2", fromlist=["QCow2"]).QCow2(io.BytesIO(bytes(b)))
         return q_.read(512)  # clusters 0 and 1 (one stream buffer) are not compressed
 
     yield dict(name="qcow2.compression_type", kind="multi", seed_ok=lambda: q_comp(0),
-               faults=[(f"type{t}", (lambda t=t: q_comp(t))) for t in list(range(2, 17)) + [0x80, 0xFE, 0xFF]])
+               faults=[(f"type{t}", (lambda t=t: q_comp(t))) for t in list(range(2, 17)) + [0x80, 0xFE, 0xFF]]
+               # the same values while the feature bit that announces the field is clear (the field is there and is not 0)
+               + [(f"type{t}-without-feature-bit", (lambda t=t: q_comp(t, 0))) for t in (2, 3, 7, 0x80, 0xFF)])
     # ---- VHDX (sparse + patches)
     vimg = _seed_vhdx()
     fields = {f[0]: f for f in vimg.fields}
